@@ -145,7 +145,11 @@ macro_rules! deriv_struct {
         let r: &mut Rng = $r;
         let n = match r.below(16) { 0 | 1 => 1, 2..=11 => r.usize(2, 8), 15 => r.usize(300, 3000), _ => r.usize(9, 60) };
         let (ends, _c) = gen_ends_any(r, n);
-        let coeffs: Vec<Vec<f64>> = (0..ends.len()).map(|_| (0..<$t as Nums>::LEN).map(|_| r.mixed(4.0)).collect()).collect();
+        let mut coeffs: Vec<Vec<f64>> = (0..ends.len()).map(|_| (0..<$t as Nums>::LEN).map(|_| r.mixed(4.0)).collect()).collect();
+        repeat_some_pieces(r, &mut coeffs);
+        if coeffs.windows(2).any(|w| w[0] == w[1]) {
+            m.count("identical_neighbouring_pieces");
+        }
         let pw: Piecewise<$t> = pw_from(&ends, &coeffs);
         m.eval();
         m.case(hash_bits(81, pw_nums(&pw).iter().map(|e| e.to_bits()).chain([<$t as Nums>::LEN as u64])));
@@ -225,7 +229,7 @@ fn canaries08(m: &mut Mon, sink: &mut Sink) {
     m.canary(|m| check_tr_derivative(m, &ends, &good([0, 1, 2], ends), &log[..2]));
 }
 
-pub const FLOORS08: &[&str] = &["derivative:Poly0", "derivative:Poly8", "piecewise_derivative:Poly8", "piecewise_derivative:Poly0", "segment_derivative_checked", "probe_functions", "exact_factor", "rounded_factor"];
+pub const FLOORS08: &[&str] = &["derivative:Poly0", "derivative:Poly8", "piecewise_derivative:Poly8", "piecewise_derivative:Poly0", "segment_derivative_checked", "probe_functions", "exact_factor", "rounded_factor", "identical_neighbouring_pieces"];
 
 pub fn drive08(a: &Args, m: &mut Mon, sink: &mut Sink) {
     m.floors(FLOORS08);
